@@ -15,10 +15,17 @@ struct Gen<'a> {
     rng: &'a mut Rng,
     next_id: u64,
     budget: usize,
+    /// some trees carry copied nodes (a UUID twice) and nodes without a UUID of their own (nil): traversal and lookup do not
+    /// look at UUIDs
+    repeat_ids: bool,
 }
 
 impl<'a> Gen<'a> {
     fn fresh(&mut self) -> Uuid {
+        if self.repeat_ids && self.next_id > 1 && self.rng.chance(1, 4) {
+            // the first node (the root) has id 0 = nil; later ones may repeat any earlier id, nil included
+            return Uuid::from_u128(self.rng.below(self.next_id) as u128);
+        }
         let id = self.next_id;
         self.next_id += 1;
         Uuid::from_u128(id as u128)
@@ -160,10 +167,12 @@ pub fn run(ctx: &mut Ctx) {
             _ => (6, 2, 40),
         };
         let (mut root, tree_j) = {
+            let repeat_ids = rng.chance(1, 3);
             let mut g = Gen {
                 rng: &mut rng,
                 next_id: 0,
                 budget,
+                repeat_ids,
             };
             g.group(0, max_depth, max_fan)
         };
